@@ -76,7 +76,10 @@ class MonDict(dict):
 class Monitor:
     def __init__(self):
         self.lock = threading.Lock()
-        self.dicts = {}  # checker class -> MonDict
+        self.latest = {}  # checker class -> MonDict created last for it
+        self.created = 0
+        self.rc = None
+        self.checker_classes = []
         self.installed = False
         self.clear()
         self.totals = {"writes": 0, "nonmono": 0, "is_recursive_calls": 0, "analysis_needed": 0, "checker_runs": 0,
@@ -118,23 +121,38 @@ class Monitor:
             return False
         mon = self
 
-        def recursion_cache(checker_cls):
+        # Faithful substitution: the tree's own caching primitive and function body are kept (an lru_cache around a function
+        # that returns a new dict: two threads missing at the same time get two different dicts, only one is kept);
+        # only the class of the returned dict changes.  A wrapper with a lock of its own would hide that race.
+        inner = getattr(orig_rc, "__wrapped__", None)
+        if inner is None or not hasattr(orig_rc, "cache_info"):
+            return False
+        import functools
+
+        def factory(checker_cls):
+            content = inner(checker_cls)
+            d = MonDict(mon, "deser" if "Deser" in checker_cls.__name__ else "ser")
+            if content:
+                dict.update(d, content)
             with mon.lock:
-                d = mon.dicts.get(checker_cls)
-                if d is None:
-                    d = mon.dicts[checker_cls] = MonDict(mon, "deser" if "Deser" in checker_cls.__name__ else "ser")
-                return d
+                mon.latest[checker_cls] = d
+                mon.created += 1
+            return d
+
+        recursion_cache = functools.lru_cache(maxsize=orig_rc.cache_info().maxsize)(factory)
+        lru_clear = recursion_cache.cache_clear
 
         def cache_clear():
             with mon.lock:
-                mon.dicts.clear()
+                mon.latest.clear()
                 mon.totals["resets"] += 1
-            orig_rc.cache_clear()
+            lru_clear()
 
         recursion_cache.cache_clear = cache_clear
-        recursion_cache.cache_info = orig_rc.cache_info
-        recursion_cache.__wrapped__ = getattr(orig_rc, "__wrapped__", orig_rc)
+        recursion_cache.__wrapped__ = inner
         recursion.recursion_cache = recursion_cache
+        self.rc = recursion_cache
+        self.checker_classes = [c for c in _all_subclasses(checker_base)]
         if orig_rc in acache._cached:
             acache._cached[acache._cached.index(orig_rc)] = recursion_cache
         else:
@@ -143,7 +161,7 @@ class Monitor:
         def is_recursive(tp, conversion, default_conversion, checker_cls):
             tid = threading.get_ident()
             with mon.lock:
-                d = mon.dicts.get(checker_cls)
+                d = mon.latest.get(checker_cls)
                 need = d is None or not dict.__contains__(d, (tp, conversion))
                 mon._bump("is_recursive_calls")
                 mon.per_thread_isrec[tid] = mon.per_thread_isrec.get(tid, 0) + 1
@@ -190,11 +208,24 @@ class Monitor:
         return True
 
     def dict_for(self, direction):
-        with self.lock:
-            for d in self.dicts.values():
-                if d.direction == direction:
+        """the dictionary currently kept by the (lru-cached) recursion_cache for that direction"""
+        for c in self.checker_classes:
+            if ("Deser" in c.__name__) == (direction == "deser") and c.__name__ != "RecursiveChecker":
+                d = self.rc(c)
+                if isinstance(d, MonDict):
                     return d
         return None
+
+
+def _all_subclasses(cls):
+    out, stack = [], [cls]
+    while stack:
+        c = stack.pop()
+        for s in c.__subclasses__():
+            if s not in out:
+                out.append(s)
+                stack.append(s)
+    return [c for c in out if not c.__subclasses__()]
 
 
 # ------------------------------------------------------------------------------------------ LINE injector
